@@ -38,6 +38,11 @@ type reqSpec struct {
 	// (or a part of one) that belongs to another exchange shows a foreign marker.
 	ReqLen  int `json:"req_len,omitempty"`
 	RespLen int `json:"resp_len,omitempty"`
+	// TermCode != 0: the request carries its own deadline - the listener's deadline filter (deadline_test.go) ends it
+	// through StreamReceiverFilterHandler.TerminateStream(TermCode) TermUs microseconds after it saw the request,
+	// whether the request is still running then or has long finished. The code is unique within the batch.
+	TermUs   int `json:"term_us,omitempty"`
+	TermCode int `json:"term_code,omitempty"`
 }
 
 // padded returns base followed by the token marker repeated up to n bytes.
@@ -61,6 +66,8 @@ type batch struct {
 	// Retry: the route has a retry policy (retry_on, 2 retries); a request scripted "retried" is answered 503 on its
 	// first attempt and as scripted for "reply" on the attempt that follows (HTTP pairings)
 	Retry bool `json:"retry,omitempty"`
+	// Deadline: the listener runs the deadline filter and some requests carry a deadline (HTTP pairings)
+	Deadline bool `json:"deadline,omitempty"`
 }
 
 var xProtos = []string{"bolt", "boltv2", "dubbo", "dubbo-thrift", "tars"}
@@ -86,6 +93,9 @@ func genBatch(rt *rapid.T, pairs []string) batch {
 	if rapid.IntRange(0, 2).Draw(rt, "faultFree") == 0 {
 		scripts = []string{"reply"}
 	}
+	if !isX && rapid.IntRange(0, 2).Draw(rt, "deadlineFilter") == 0 {
+		b.Deadline = true
+	}
 	caseNo := mesh.Uniq()
 	perConn := map[int]uint64{}
 	for i := 0; i < k; i++ {
@@ -99,6 +109,12 @@ func genBatch(rt *rapid.T, pairs []string) batch {
 			// one full read buffer, several frames; the xprotocol frames get the same body sizes
 			size := rapid.OneOf(rapid.Just(0), rapid.Just(0), rapid.IntRange(200, 1023), rapid.IntRange(1024, 4096), rapid.IntRange(1024, 4096), rapid.IntRange(4097, 40000))
 			rs.ReqLen, rs.RespLen = size.Draw(rt, "reqLen"), size.Draw(rt, "respLen")
+		}
+		if b.Deadline && rapid.IntRange(0, 2).Draw(rt, "hasDeadline") > 0 {
+			// early (the request is still on its way), around the releases, or late (the request has usually finished
+			// and its pooled stream object may serve another request by then)
+			rs.TermUs = rapid.OneOf(rapid.IntRange(0, 3000), rapid.IntRange(3000, 30000), rapid.IntRange(30000, 120000)).Draw(rt, "termUs")
+			rs.TermCode = 600 + i
 		}
 		b.Reqs = append(b.Reqs, rs)
 	}
@@ -226,6 +242,9 @@ func runBatch(rt *rapid.T, b batch) {
 			typ = "http2Tohttp"
 		}
 		opts.StreamFilters = []v2.Filter{{Type: "transcoder", Config: map[string]interface{}{"type": typ}}}
+	}
+	if b.Deadline {
+		opts.StreamFilters = append([]v2.Filter{{Type: deadlineFilterType, Config: map[string]interface{}{}}}, opts.StreamFilters...)
 	}
 	c, err := mesh.NewCase(opts)
 	if err != nil {
@@ -374,7 +393,11 @@ func runBatch(rt *rapid.T, b batch) {
 				}
 				for _, r := range reqs {
 					body := padded(r.Token, "-req", r.ReqLen)
-					if err := cl.Send(mesh.RawRequest("POST", "/c02/"+r.Token, "c02.test", [][2]string{{mesh.TokenHeader, r.Token}}, body, false)); err != nil {
+					hdr := [][2]string{{mesh.TokenHeader, r.Token}}
+					if r.TermCode != 0 {
+						hdr = append(hdr, [2]string{deadlineHeader, fmt.Sprintf("%d:%d", r.TermUs, r.TermCode)})
+					}
+					if err := cl.Send(mesh.RawRequest("POST", "/c02/"+r.Token, "c02.test", hdr, body, false)); err != nil {
 						return
 					}
 					resp, err := cl.Read("POST", clientDeadline)
@@ -382,6 +405,7 @@ func runBatch(rt *rapid.T, b batch) {
 						return // connection ended: nothing more can be attributed on it
 					}
 					checkHTTP(bad, o, b.Pair, ci, r, resp.Header.Get(mesh.TokenHeader), resp.Body)
+					checkDeadlineStatus(bad, b.Pair, ci, r, resp.Status)
 					if resp.Header.Get(mesh.TokenHeader) != "" {
 						rmu.Lock()
 						if bytes.Contains(resp.Body, []byte(mesh.Wrap(r.Token)+"-resp")) {
@@ -421,6 +445,9 @@ func runBatch(rt *rapid.T, b batch) {
 					defer rcancel()
 					req, _ := http.NewRequestWithContext(rctx, "POST", "http://"+c.Addr+"/c02/"+r.Token, bytes.NewReader(padded(r.Token, "-req", r.ReqLen)))
 					req.Header.Set(mesh.TokenHeader, r.Token)
+					if r.TermCode != 0 {
+						req.Header.Set(deadlineHeader, fmt.Sprintf("%d:%d", r.TermUs, r.TermCode))
+					}
 					resp, err := client.Do(req)
 					if err != nil {
 						return
@@ -431,6 +458,7 @@ func runBatch(rt *rapid.T, b batch) {
 						return
 					}
 					checkHTTP(bad, o, b.Pair, ci, r, resp.Header.Get(mesh.TokenHeader), body)
+					checkDeadlineStatus(bad, b.Pair, ci, r, resp.StatusCode)
 					if resp.Header.Get(mesh.TokenHeader) != "" {
 						rmu.Lock()
 						if bytes.Contains(body, []byte(mesh.Wrap(r.Token)+"-resp")) {
@@ -491,6 +519,27 @@ func runBatch(rt *rapid.T, b batch) {
 			break
 		}
 	}
+	if b.Deadline {
+		classes = append(classes, "deadline-filter", "deadline-filter:"+b.Pair)
+		early, late := 0, 0
+		for _, r := range b.Reqs {
+			if r.TermCode != 0 && r.TermUs < 3000 {
+				early++
+			}
+			if r.TermCode != 0 && r.TermUs >= 30000 {
+				late++
+			}
+		}
+		if early > 0 {
+			classes = append(classes, "deadline-early")
+		}
+		if late > 0 {
+			classes = append(classes, "deadline-after-the-request-finished")
+		}
+		if n := deadlineHits(b); n > 0 {
+			classes = append(classes, "deadline-terminated-a-request")
+		}
+	}
 	if b.Retry {
 		retried := 0
 		o.mu.Lock()
@@ -505,7 +554,7 @@ func runBatch(rt *rapid.T, b batch) {
 			classes = append(classes, "request-retried-after-503", "request-retried-after-503:"+up)
 		}
 	}
-	canon := []byte(fmt.Sprintf("%s|%d|%v|%v|%d", b.Pair, b.Conns, scriptsOf(b), b.Perm, b.DropConn))
+	canon := []byte(fmt.Sprintf("%s|%d|%v|%v|%d|%v", b.Pair, b.Conns, scriptsOf(b), b.Perm, b.DropConn, b.Deadline))
 	ev.Case(partBatch, nontrivial, canon, func() interface{} { return b }, classes...)
 	ev.Extra(partBatch, "requests", int64(len(b.Reqs)))
 	ev.Extra(partBatch, "token_responses", int64(responded))
@@ -520,6 +569,10 @@ func runBatch(rt *rapid.T, b batch) {
 func scriptsOf(b batch) []string {
 	var s []string
 	for _, r := range b.Reqs {
+		if r.TermCode != 0 {
+			s = append(s, fmt.Sprintf("%d:%s:deadline%d", r.Conn, r.Script, r.TermUs))
+			continue
+		}
 		s = append(s, fmt.Sprintf("%d:%s", r.Conn, r.Script))
 	}
 	return s
